@@ -24,7 +24,7 @@ META = {
             "(NaN/signed-zero aware, type strict), the HTTP state codec (_serialize_state_bytes/_deserialize_state_bytes) "
             "is run on StreamState subclasses of the same shapes, and TLC judges every observation with Conforms.",
     "note": "What TLA+ contributes is exhaustiveness over shapes x value classes and the accept/reject oracle; equality of "
-            "concrete values is sampled inside each class. msgpack is not installed: serialize_compact() is dead code in "
+            "concrete values is sampled inside each class (boundaries exact; bulk members drawn by hypothesis strategies seeded from VERIF_SEED). msgpack is not installed: serialize_compact() is dead code in "
             "this sandbox, the compact-vs-Arrow agreement clause is NOT covered (reported in evidence).",
 }
 
@@ -93,6 +93,7 @@ def run(ctx: Ctx) -> None:
     warnings.filterwarnings("ignore")
     quick = ctx.quick
     rng = ctx.rng
+    T.SEED = ctx.seed
     from vgi_rpc import utils as U
 
     ctx.rule = ("case = (field annotation term, shape, leaf value class, field variant, concrete value, codec leg); terms/classes "
@@ -106,15 +107,12 @@ def run(ctx: Ctx) -> None:
     ctx.extra["compact_codec_leg"] = ("NOT COVERED: msgpack is not installed (_HAVE_MSGPACK=%s), serialize_compact() returns None "
                                       "for every class, so 'compact decodes to the same object as Arrow' was not executed"
                                       % U._HAVE_MSGPACK)
-    runs = [("depth1", {"Mode": "dc", "MaxDepth": 1, "Ctors": sset(ALL_CTORS), "Leaves": sset(ALL_LEAVES), "SigLeaves": sset([]),
-                        "Variants": sset(["plain", "default", "transient"])}),
-            ("depth2", {"Mode": "dc", "MaxDepth": 2, "Ctors": sset(ALL_CTORS),
-                        "Leaves": sset(["int", "u64", "f32", "float", "str", "bytes", "bool", "enum", "dec", "ts_us", "schema", "batch"]
-                                       if quick else ALL_LEAVES[:-2]),
-                        "SigLeaves": sset([]), "Variants": sset(["plain"])}),
+    deep = ["int", "u64", "f32", "str", "enum", "dec", "schema", "batch"] if quick else ALL_LEAVES[:-2]
+    deep3 = ["int", "enum", "str", "f32"] if quick else ["int", "enum", "str", "f32", "bytes", "dec", "schema"]
+    runs = [("depth2", {"Mode": "dc", "MaxDepth": 2, "Ctors": sset(ALL_CTORS), "Leaves": sset(ALL_LEAVES), "DeepLeaves": sset(deep),
+                        "SigLeaves": sset([]), "Variants": sset(["plain", "default", "transient"])}),
             ("depth3", {"Mode": "dc", "MaxDepth": 3, "Ctors": sset(["opt", "list", "set", "map_str", "dc"]),
-                        "Leaves": sset(["int", "enum", "str", "f32"] if quick else ["int", "enum", "str", "f32", "bytes", "dec", "schema"]),
-                        "SigLeaves": sset([]), "Variants": sset(["plain"])})]
+                        "Leaves": sset(deep3), "DeepLeaves": sset(deep3), "SigLeaves": sset([]), "Variants": sset(["plain"])})]
     seen_cases = set()
     all_cases = []
     for name, consts in runs:
@@ -129,7 +127,7 @@ def run(ctx: Ctx) -> None:
             fresh.append((cj, consts))
         if name == "depth3" and quick:   # quick: depth 3 is a seeded sample of the enumerated space
             deep = [x for x in fresh if len(x[0]["case"]["t"]) == 4]
-            fresh = rng.sample(deep, min(len(deep), 1500))
+            fresh = rng.sample(deep, min(len(deep), 800))
             ctx.extra["depth3_sampled"] = {"enumerated": len(deep), "executed": len(fresh)}
         all_cases.append((name, consts, fresh))
     ctx.exhaustive = not quick
